@@ -8,12 +8,12 @@ from .common import run_control, generic_rules
 
 def analyse(ctx: CheckContext, p: Program):
     r = Resolver(p)
-    generic_rules(ctx, p, r, "C05")
-    scale.check_scale(ctx, p, r)
-    scale.check_graph_roles(ctx, p, r)
+    ctx.guard(generic_rules, ctx, p, r, "C05")
+    ctx.guard(scale.check_scale, ctx, p, r)
+    ctx.guard(scale.check_graph_roles, ctx, p, r)
     # rows inserted later (constant-enthalpy projection, pocket cutting, utility levels) are written through fresh views
     eng = inval.InvalEngine(p, r)
-    inval.check_views(ctx, eng, r.pipeline_cone())
+    ctx.guard(inval.check_views, ctx, eng, r.pipeline_cone())
 
 
 def run(ctx: CheckContext):
